@@ -1040,6 +1040,16 @@ func (c *fctx) stmt(d int) []Instr {
 			if br := c.branch(d); len(br) > 0 {
 				return br
 			}
+		case 18, 19: // call_indirect of whatever the table offers, results discarded
+			var tried bool
+			for _, td := range m.Types {
+				if code := c.callIndirect(td.Type.Results, d); code != nil {
+					return append(code, c.dropValues(td.Type.Results)...)
+				}
+				tried = true
+			}
+			_ = tried
+			continue
 		case 17: // values pushed and dropped through a multi-value construct
 			ts := []ValType{g.pickType("mv1"), g.pickType("mv2")}
 			if g.chance("mv3", 30) {
